@@ -66,6 +66,10 @@ def corpus():
                                                                                              dict(op='remove', rule='/u/<id:float>-x')]
                    + _probes(['/u/5', '/u/5.json', '/u/2.5.json', '/u/5/edit', '/u/5-x', '/u/x.json'])
                    + _adds(['/u/<id:float>/edit'], h0=7) + _probes(['/u/5/edit', '/u/5.json'])))
+    # line-boundary characters in the text a wildcard has to take ('.' stops at LF; '$' tolerates one trailing LF)
+    cs.append(dict(cmds=_adds(['/static/<name:path>', '/n/<k:int>', '/w/<x>', '/f/<p:path>/end', '/s/<v:re:[a-c]+>'])
+                   + _probes(['/static/a\nb', '/static/a/b\n', '/static/\n', '/static/a/b', '/static/a\n\n', '/static/a\x85b', '/static/a\u2028b',
+                              '/static/a\x0bb', '/n/12\n', '/n/\n12', '/w/a\nb', '/w/a\n', '/f/a\nb/end', '/f/a/end\n', '/s/ab\n', '/s/a\nb'])))
     # conflicting filters: the second add is rejected
     cs.append(dict(cmds=_adds(['/a/<x:int>', '/a/<x>', '/a/<y:int>/z', '/a/<x:re:[a-c]+>'])
                    + _probes(['/a/12', '/a/zz', '/a/12/z', '/a/ab', '/a/١٢', '/a/-3/z', '/a/1.5'])))
